@@ -101,7 +101,7 @@ pub fn run_one(run_no: usize, c: &Case, out: &mut Vec<Value>) -> Vec<Vec<u8>> {
     rr.match_writer_with_qos(0, WG, &off, 22_001);
     let r_matched = rr.matched_writers(0).contains(&WG);
     let mut r_status = vec![];
-    while let Some(s) = rr.slots[0].datareader.try_recv_status() {
+    while let Some(s) = rr.slots[0].dr().try_recv_status() {
         r_status.push(match s {
             rustdds::DataReaderStatus::SubscriptionMatched { .. } => "Matched".to_string(),
             rustdds::DataReaderStatus::RequestedIncompatibleQos { last_policy_id, .. } => format!("{last_policy_id:?}"),
